@@ -170,6 +170,12 @@ type server struct {
 	status   int32        //server status
 	// clients stores the  online clients
 	clients map[string]*client
+	// conns holds every accepted connection until it has been closed, whether or not it has
+	// completed CONNECT, keyed by a per-server sequence number. Guarded by mu.
+	conns   map[uint64]*client
+	connSeq uint64
+	// stopping is set by Stop: no new connection is served afterwards. Guarded by mu.
+	stopping bool
 	// offlineClients store the expired time of all disconnected clients
 	// with valid session(not expired). Key by clientID
 	offlineClients  map[string]time.Time
@@ -867,6 +873,7 @@ func defaultServer() *server {
 		exitChan:       make(chan struct{}),
 		exitedChan:     make(chan struct{}),
 		clients:        make(map[string]*client),
+		conns:          make(map[uint64]*client),
 		offlineClients: make(map[string]time.Time),
 		willMessage:    make(map[string]*willMsg),
 		retainedDB:     retained_trie.NewStore(),
@@ -1148,7 +1155,25 @@ func (srv *server) newClient(c net.Conn) (*client, error) {
 	}
 	client.setConnecting()
 
+	srv.mu.Lock()
+	if srv.stopping {
+		srv.mu.Unlock()
+		_ = c.Close()
+		return nil, errors.New("server is stopping")
+	}
+	srv.trackConnLocked(client)
+	srv.mu.Unlock()
 	return client, nil
+}
+
+// trackConnLocked records an accepted connection so that Stop can close it. Must hold srv.mu.
+func (srv *server) trackConnLocked(c *client) {
+	if srv.conns == nil {
+		srv.conns = make(map[uint64]*client)
+	}
+	srv.connSeq++
+	c.connID = srv.connSeq
+	srv.conns[c.connID] = c
 }
 
 func (srv *server) initPluginHooks() error {
@@ -1548,11 +1573,12 @@ func (srv *server) Stop(ctx context.Context) error {
 		for _, ws := range srv.websocketServer {
 			ws.Server.Shutdown(ctx)
 		}
-		// close all idle clients
+		// close all accepted connections, including those that have not completed CONNECT
 		srv.mu.Lock()
-		chs := make([]chan struct{}, len(srv.clients))
+		srv.stopping = true
+		chs := make([]chan struct{}, len(srv.conns))
 		i := 0
-		for _, c := range srv.clients {
+		for _, c := range srv.conns {
 			chs[i] = c.closed
 			i++
 			c.Close()
